@@ -1492,8 +1492,489 @@ def obligations(tier):
     )
 
     # ==================================================================================================
+    # 5. qubit identifiers: api.v2.program proto ids and their uses (operations, measurement qubit lists,
+    #    CircuitOperation qubit maps, device specifications)
+    # ==================================================================================================
+    # Coordinates are SOLVER variables (cx.int + an assumption that spans negative, zero, one- and two-digit and a few
+    # large values); the id is a Python str, so each coordinate is concretised where the qubit is built (the explorer
+    # enumerates every feasible value: one path per value) and the qubit that comes back is compared with the SYMBOLIC
+    # term again (z3 decides got.row == row under the path condition row == value).
+    from cirq_google.api.v2 import program as PRG
+    from cirq_google.ops.coupler import Coupler
+
+    FULL = ((-12, 12), [-(1 << 31) - 1, -100, 99, 1000, 1 << 31, (1 << 63) + 7])  # 31 values
+    SHORT = ((-2, 2), [-11, 10, 1 << 40])  # 8 values
+    TINY = ((-1, 1), [-11, 10])  # 5 values
+    QID_OPTS = {'int_fork_limit': 64, 'max_paths': 20000}
+
+    def coord(cx, name, dom):
+        """(symbolic term, concrete value on this path) of a solver-chosen integer from dom = ((lo, hi), [extra values])"""
+        (lo, hi), extra = dom
+        v = cx.int(name, -(1 << 70), 1 << 70)
+        cx.assume(OR([AND([v >= lo, v <= hi])] + [v == e for e in extra]))
+        return (v, int(v))
+
+    def shifted(co, d):
+        return (co[0] + d, co[1] + d)
+
+    # qubit descriptions (independent of the cirq objects): ('grid', row, col) / ('line', x) / ('named', str) / ('coupler', d0, d1);
+    # row, col, x are (symbolic, concrete) pairs
+    def q_make(d):
+        if d[0] == 'grid':
+            return cirq.GridQubit(d[1][1], d[2][1])
+        if d[0] == 'line':
+            return cirq.LineQubit(d[1][1])
+        if d[0] == 'named':
+            return cirq.NamedQubit(d[1])
+        return Coupler(q_make(d[1]), q_make(d[2]))
+
+    def q_ids(d):
+        """the proto ids the docstring of qubit_to_proto_id allows for this qubit (a coupler is an unordered pair)"""
+        if d[0] == 'grid':
+            return ['%d_%d' % (d[1][1], d[2][1])]
+        if d[0] == 'line':
+            return ['%d' % d[1][1]]
+        if d[0] == 'named':
+            return [d[1]]
+        return ['c_' + i0 + '_' + i1 for a_, b_ in ((d[1], d[2]), (d[2], d[1])) for i0 in q_ids(a_) for i1 in q_ids(b_)]
+
+    def q_cond(got, d):
+        """condition: `got` is the qubit described by d (exact class, documented attributes against the SYMBOLIC coordinates)"""
+        if d[0] == 'grid':
+            return type(got) is cirq.GridQubit and AND([got.row == d[1][0], got.col == d[2][0]])
+        if d[0] == 'line':
+            return type(got) is cirq.LineQubit and AND([got.x == d[1][0]])
+        if d[0] == 'named':
+            return type(got) is cirq.NamedQubit and got.name == d[1]
+        if type(got) is not Coupler:
+            return False
+        return OR([AND([q_cond(got.qubit0, d[1]), q_cond(got.qubit1, d[2])]), AND([q_cond(got.qubit0, d[2]), q_cond(got.qubit1, d[1])])])
+
+    def q_seq(k, got, ds, why):
+        got = list(got)
+        if k.cond(len(got) == len(ds), f'{why}: {len(got)} qubits instead of {len(ds)}'):
+            for i, (g, d) in enumerate(zip(got, ds)):
+                k.cond(q_cond(g, d), f'{why}[{i}]: {g!r} is not {q_ids(d)[0]!r}')
+
+    def raises_value_error(f, *args):
+        try:
+            f(*args)
+        except ValueError:
+            return True
+        return False
+
+    # names that are NOT of the form of a grid / line / coupler id (the format cannot tell those apart: see the finding
+    # obligation); several embed the symbolic coordinates so that they sit right next to the grid / line forms
+    NAME_TEMPLATES = [
+        ('alice', 0, lambda r, c: 'alice'),
+        ('<empty>', 0, lambda r, c: ''),
+        ('c_', 0, lambda r, c: 'c_'),
+        ('q_7', 0, lambda r, c: 'q_7'),
+        ('x{r}', 1, lambda r, c: 'x%d' % r),
+        ('{r}x', 1, lambda r, c: '%dx' % r),
+        ('q{r}', 1, lambda r, c: 'q%d' % r),
+        ('{r}_', 1, lambda r, c: '%d_' % r),
+        ('_{r}', 1, lambda r, c: '_%d' % r),
+        ('{r}.0', 1, lambda r, c: '%d.0' % r),
+        ('q_{r}_{c}', 2, lambda r, c: 'q_%d_%d' % (r, c)),
+        ('{r}_{c}_{r}', 2, lambda r, c: '%d_%d_%d' % (r, c, r)),
+        ('{r}__{c}', 2, lambda r, c: '%d__%d' % (r, c)),
+        ('{r}_{c}q', 2, lambda r, c: '%d_%dq' % (r, c)),
+        ('c{r}_{c}', 2, lambda r, c: 'c%d_%d' % (r, c)),
+        ('c_{r}_{c}_{r}', 2, lambda r, c: 'c_%d_%d_%d' % (r, c, r)),
+        ('{r}_{c}.5', 2, lambda r, c: '%d_%d.5' % (r, c)),
+    ]
+
+    def named_from(cx, ti, dom_r=FULL, dom_c=SHORT, suffix=''):
+        _, nint, f = NAME_TEMPLATES[ti]
+        r = coord(cx, 'r' + suffix, dom_r) if nint >= 1 else (0, 0)
+        c = coord(cx, 'c' + suffix, dom_c) if nint >= 2 else (0, 0)
+        return ('named', f(r[1], c[1]))
+
+    ID_KINDS = ['grid', 'line', 'named', 'coupler_grid', 'coupler_line', 'coupler_named', 'qudit']
+
+    def body_qid_functions(cx, kind, wrong=False):
+        k = Cmp(cx, TOL)
+        if kind == 'qudit':
+            # qudits are not supported by the format: refused loudly
+            x = coord(cx, 'x', FULL)
+            dim = 3 + cx.choose('dimension', 2)
+            q = [cirq.GridQid(x[1], 1 - x[1], dimension=dim), cirq.LineQid(x[1], dimension=dim), cirq.NamedQid('%d_%d' % (x[1], x[1]), dimension=dim)][cx.choose('class', 3)]
+            k.cond(raises_value_error(PRG.qubit_to_proto_id, q), f'qubit_to_proto_id({q!r}) does not raise ValueError')
+            return k.finish('qudit id', wrong)
+        if kind == 'grid':
+            d = ('grid', coord(cx, 'row', FULL), coord(cx, 'col', FULL))
+        elif kind == 'line':
+            d = ('line', coord(cx, 'x', FULL))
+        elif kind == 'named':
+            d = named_from(cx, cx.choose('name', len(NAME_TEMPLATES)))
+        elif kind == 'coupler_grid':
+            r, c = coord(cx, 'row', FULL), coord(cx, 'col', SHORT)
+            dr, dc = [(0, 1), (1, 0), (0, -1), (-1, 0), (3, -7)][cx.choose('neighbour', 5)]
+            d = ('coupler', ('grid', r, c), ('grid', shifted(r, dr), shifted(c, dc)))
+        elif kind == 'coupler_line':
+            x = coord(cx, 'x', FULL)
+            d = ('coupler', ('line', x), ('line', shifted(x, [1, -1, 25][cx.choose('neighbour', 3)])))
+        else:
+            ti = [4, 5, 6, 9][cx.choose('name', 4)]  # one-integer templates without an underscore
+            r = coord(cx, 'r', FULL)
+            d = ('coupler', ('named', NAME_TEMPLATES[ti][2](r[1], 0)), ('named', ['bob', 'y%d' % (r[1] + 1)][cx.choose('second', 2)]))
+        q = q_make(d)
+        pid = PRG.qubit_to_proto_id(q)
+        k.cond(type(pid) is str and pid in q_ids(d), f'qubit_to_proto_id({q!r}) = {pid!r}, documented {q_ids(d)}')
+        back = PRG.qubit_from_proto_id(pid)
+        k.cond(q_cond(back, d), f'qubit_from_proto_id({pid!r}) = {back!r}')
+        # the specialised parsers
+        if d[0] == 'grid':
+            k.cond(q_cond(PRG.grid_qubit_from_proto_id(pid), d), f'grid_qubit_from_proto_id({pid!r})')
+            k.cond(q_cond(PRG.grid_qubit_from_proto_id('q' + pid), d), f'grid_qubit_from_proto_id({"q" + pid!r}) (form [q]<int>_<int>)')
+        elif d[0] == 'line':
+            k.cond(q_cond(PRG.line_qubit_from_proto_id(pid), d), f'line_qubit_from_proto_id({pid!r})')
+            k.cond(raises_value_error(PRG.grid_qubit_from_proto_id, pid), f'grid_qubit_from_proto_id({pid!r}) does not raise ValueError')
+        elif d[0] == 'named':
+            k.cond(q_cond(PRG.named_qubit_from_proto_id(pid), d), f'named_qubit_from_proto_id({pid!r})')
+            k.cond(raises_value_error(PRG.grid_qubit_from_proto_id, pid), f'grid_qubit_from_proto_id({pid!r}) does not raise ValueError')
+            k.cond(raises_value_error(PRG.line_qubit_from_proto_id, pid) or '_' in pid, f'line_qubit_from_proto_id({pid!r}) does not raise ValueError')
+        else:
+            k.cond(raises_value_error(PRG.grid_qubit_from_proto_id, pid) and raises_value_error(PRG.line_qubit_from_proto_id, pid), f'grid / line parsers accept the coupler id {pid!r}')
+        k.finish(f'qubit id {kind}', wrong)
+
+    def qid_points(kind):
+        pts = []
+        for i, (r, c) in enumerate(((-1, -2), (0, 0), (-12, 10), (7, -11), (1 << 31, 1), (-100, 2), ((1 << 63) + 7, -1), (12, 1 << 40), (99, 0), (-(1 << 31) - 1, -2))):
+            pts.append({'row': r, 'col': c if kind != 'grid' or abs(c) <= 12 else 1000, 'x': r, 'r': r, 'c': c, 'choose:name': (3 * i + 1) % len(NAME_TEMPLATES), 'choose:neighbour': i % 3, 'choose:second': i % 2, 'choose:class': i % 3, 'choose:dimension': i % 2})
+        return pts
+
+    for kind in ID_KINDS:
+        obs.append(
+            Obligation(
+                f'msgs.qubit_id.functions[{kind}]',
+                (lambda cx, kind=kind: body_qid_functions(cx, kind)),
+                twin=(lambda cx, kind=kind: body_qid_functions(cx, kind, wrong=True)),
+                points=qid_points(kind),
+                opts=dict(QID_OPTS, weight=3 if kind in ('grid', 'named', 'coupler_grid') else 1),
+                desc=f'api.v2.program qubit_to_proto_id / qubit_from_proto_id (+ grid_/line_/named_qubit_from_proto_id) on qubit kind {kind} (of {ID_KINDS}): coordinates are SOLVER-chosen integers from -12..12 plus {FULL[1]} (second coordinate of couplers / names: -2..2 plus {SHORT[1]}), concretised where the id string is built (one path per value); names from {[n for n, _, _ in NAME_TEMPLATES]}; the id is the documented string, qubit_from_proto_id gives back the same class with the same coordinates / name (couplers: the same unordered pair), the specialised parsers accept their own form ([q]<int>_<int> for grids) and raise ValueError on the others; qudits are refused with ValueError',
+            )
+        )
+
+    # ---- uses by CircuitSerializer ------------------------------------------------------------------------------------------
+    QSETS = ['grid', 'line', 'named', 'coupler', 'mixed']
+
+    def qset(cx, which):
+        """four distinct qubit descriptions"""
+        if which == 'grid':
+            r, c = coord(cx, 'row', FULL), coord(cx, 'col', SHORT)
+            # the last one swaps the roles of the two coordinates (and is never one of the others)
+            return [('grid', r, c), ('grid', r, shifted(c, 1)), ('grid', shifted(r, -1), c), ('grid', shifted(c, -1), shifted(r, 100))]
+        if which == 'line':
+            x = coord(cx, 'x', FULL)
+            return [('line', x), ('line', shifted(x, 1)), ('line', shifted(x, -1)), ('line', shifted(x, -13))]
+        if which == 'named':
+            r, c = coord(cx, 'r', FULL), coord(cx, 'c', TINY)
+            # leading / trailing underscore and blank: nothing may be stripped or normalised on the way
+            return [('named', 'q_%d_%d' % (r[1], c[1])), ('named', '%d_%d_' % (r[1], c[1])), ('named', '_%d' % r[1]), ('named', ' c%d_%d ' % (r[1], c[1]))]
+        if which == 'coupler':
+            r, c = coord(cx, 'row', FULL), coord(cx, 'col', TINY)
+            return [
+                ('coupler', ('grid', r, c), ('grid', r, shifted(c, 1))),
+                ('coupler', ('grid', shifted(r, 1), c), ('grid', r, c)),
+                ('coupler', ('line', r), ('line', shifted(r, -1))),
+                ('coupler', ('named', 'a%d' % r[1]), ('named', 'b')),
+            ]
+        r, c = coord(cx, 'row', FULL), coord(cx, 'col', TINY)
+        return [('grid', r, c), ('line', r), ('named', 'q_%d_%d' % (r[1], c[1])), ('coupler', ('grid', c, r), ('grid', shifted(c, 1), r))]
+
+    CIRCUIT_FORMS = ['operations', 'operations_in_legacy_qubits_field', 'circuit_op', 'circuit_op_partial_map']
+
+    def body_qid_circuit(cx, which, wrong=False):
+        form = CIRCUIT_FORMS[cx.choose('form', len(CIRCUIT_FORMS))]
+        ds = qset(cx, which)
+        q = [q_make(d) for d in ds]
+        k = Cmp(cx, TOL)
+        if form.startswith('operations'):
+            # one operation per moment: (gate, positions of its qubits in ds), qubit ORDER is part of every operation
+            plan = [('X', (0,)), ('wait', (1, 0)), ('X', (3,)), ('measure', (2, 0, 3)), ('wait', (3, 2, 1)), ('measure', (1,))]
+            ops_ = []
+            for g, idx in plan:
+                qs = [q[i] for i in idx]
+                if g == 'X':
+                    ops_.append(cirq.X(*qs))
+                elif g == 'wait':
+                    ops_.append(cirq.wait(*qs, nanos=5))
+                else:
+                    ops_.append(cirq.measure(*qs, key=f'm{len(idx)}', invert_mask=(True,) + (False,) * (len(idx) - 1)))
+            c = cirq.Circuit(cirq.Moment([o]) for o in ops_)
+            if form == 'operations':
+                back = roundtrip(cx, c)
+            else:
+                # program.proto: Operation.qubits (deprecated in favour of qubit_constant_index, still read "in case the
+                # constants table was not used"): the harness moves every qubit reference of the message into that field
+                msg = SER.serialize(c)
+                for const in msg.constants:
+                    if const.WhichOneof('const_value') == 'operation_value':
+                        ids_ = [msg.constants[i].qubit.id for i in const.operation_value.qubit_constant_index]
+                        del const.operation_value.qubit_constant_index[:]
+                        for id_ in ids_:
+                            const.operation_value.qubits.add().id = id_
+                back = SER.deserialize(wire(cx, msg))
+            k.circuit(back, c, which)
+            if k.cond(len(back.moments) == len(plan) and all(len(m.operations) == 1 for m in back.moments), 'one operation per moment'):
+                for i, (g, idx) in enumerate(plan):
+                    q_seq(k, back.moments[i].operations[0].qubits, [ds[j] for j in idx], f'moment {i} ({g}) qubits')
+        else:
+            sub_plan = [('X', (0,)), ('wait', (1, 0)), ('measure', (1, 0))]
+            sub = cirq.FrozenCircuit(cirq.Moment([cirq.X(q[0])]), cirq.Moment([cirq.wait(q[1], q[0], nanos=5)]), cirq.Moment([cirq.measure(q[1], q[0], key='k')]))
+            qmap = {0: 2, 1: 3} if form == 'circuit_op' else {1: 2}
+            op = cirq.CircuitOperation(sub, qubit_map={q[i]: q[j] for i, j in qmap.items()})
+            c = cirq.Circuit(cirq.Moment([op]), cirq.Moment([cirq.X(q[1])]))
+            back = roundtrip(cx, c)
+            k.circuit(back, c, which)
+            bop = back.moments[0].operations[0] if len(back.moments) == 2 and len(back.moments[0].operations) == 1 else None
+            if k.cond(isinstance(bop, cirq.CircuitOperation), f'first operation is {type(bop).__name__}'):
+                items = list(bop.qubit_map.items())
+                if k.cond(len(items) == len(qmap), f'qubit_map has {len(items)} entries instead of {len(qmap)}'):
+                    for i, j in qmap.items():
+                        k.cond(OR([AND([q_cond(kk, ds[i]), q_cond(vv, ds[j])]) for kk, vv in items]), f'qubit_map entry {q_ids(ds[i])[0]!r} -> {q_ids(ds[j])[0]!r} missing in {bop.qubit_map}')
+                bm = list(bop.circuit.moments)
+                if k.cond(len(bm) == 3 and all(len(m.operations) == 1 for m in bm), 'sub-circuit: one operation per moment'):
+                    for i, (g, idx) in enumerate(sub_plan):
+                        q_seq(k, bm[i].operations[0].qubits, [ds[j] for j in idx], f'sub-circuit moment {i} ({g}) qubits')
+                # the qubits the operation acts on: the mapped ones
+                outer = [ds[qmap.get(i, i)] for i in (0, 1)]
+                got_outer = list(bop.qubits)
+                if k.cond(len(got_outer) == 2, f'operation acts on {got_outer}'):
+                    for d in outer:
+                        k.cond(OR([q_cond(g, d) for g in got_outer]), f'operation does not act on {q_ids(d)[0]!r}: {got_outer}')
+            q_seq(k, back.moments[1].operations[0].qubits if len(back.moments) == 2 else [], [ds[1]], 'second moment qubits')
+        k.finish(f'qubit ids in a circuit ({which})', wrong)
+
+    def qcirc_points():
+        return [{'choose:form': i % 4, 'row': r, 'col': c, 'x': r, 'r': r, 'c': c} for i, (r, c) in enumerate(((-1, -1), (0, 0), (-12, 1), (7, -11), (1 << 31, 1), (-100, 0), ((1 << 63) + 7, -1), (12, 10), (99, 0)))]
+
+    for which in QSETS:
+        obs.append(
+            Obligation(
+                f'msgs.qubit_id.circuit[{which}]',
+                (lambda cx, which=which: body_qid_circuit(cx, which)),
+                twin=(lambda cx, which=which: body_qid_circuit(cx, which, wrong=True)),
+                points=qcirc_points(),
+                opts=dict(QID_OPTS, weight=4),
+                desc=f'CircuitSerializer.serialize / deserialize with four qubits of kind {which} (of {QSETS}; grid (row, col), (row, col+1), (row-1, col), (col-1, row+100); line x, x+1, x-1, x-13; names "q_<r>_<c>", "<r>_<c>_", "_<r>", " c<r>_<c> "; couplers of grid / line / named qubits; mixed kinds in one circuit) whose coordinates are SOLVER-chosen (-12..12 plus large values; second coordinate -2..2 / -1..1 plus a few), in the forms {CIRCUIT_FORMS}: X / wait / measure operations with permuted qubit ORDER (measurement qubit lists of 1 and 3 qubits with an invert mask), the same message with every qubit reference moved to the deprecated Operation.qubits id list, and a CircuitOperation with a full / partial qubit_map onto the other qubits: every operation, sub-circuit operation and qubit_map entry comes back on the same qubits (exact class, coordinates compared with the symbolic terms) in the same order',
+            )
+        )
+
+    # ---- result messages: qubit ids of the measured qubits --------------------------------------------------------------------
+    def body_qid_results(cx, wrong=False):
+        from cirq_google.api.v2 import result_pb2
+        from cirq_google.api.v2 import results as RES
+
+        r, c = coord(cx, 'row', FULL), coord(cx, 'col', SHORT)
+        with_infos = cx.choose('measurements_given', 2) == 1
+        # measurement order is not the sorted order; the last qubit swaps the roles of the coordinates
+        ds = [('grid', r, shifted(c, 1)), ('grid', shifted(r, -1), c), ('grid', r, c), ('grid', shifted(c, -1), shifted(r, 100))]
+        q = [q_make(d) for d in ds]
+        circuit = cirq.Circuit(cirq.measure(*q, key='m'), cirq.measure(q[2], q[0], key='k'))
+        infos = RES.find_measurements(circuit)
+        # concrete record bits, one distinct column per measured qubit (the ids, not the bits, are the subject here)
+        cols = {'m': [[1, 0, 0, 1, 1], [0, 1, 0, 1, 0], [0, 0, 1, 1, 1], [1, 1, 1, 0, 0]], 'k': [[1, 1, 0, 0, 1], [0, 1, 1, 0, 0]]}
+        records = {key: np.array(v, dtype=np.uint8).T.reshape(5, 1, len(v)) for key, v in cols.items()}
+        res = cirq.ResultDict(params=cirq.ParamResolver({}), records=records)
+        msg = RES.results_to_proto([[res]], infos)
+        if cx.mode == 'concrete':
+            msg = result_pb2.Result.FromString(msg.SerializeToString())
+        k = Cmp(cx, TOL)
+        mrs = list(msg.sweep_results[0].parameterized_results[0].measurement_results)
+        order = {'m': [0, 1, 2, 3], 'k': [2, 0]}
+        if k.cond([m.key for m in mrs] == ['m', 'k'], f'measurement results {[m.key for m in mrs]}'):
+            for mr in mrs:
+                # result.proto: one QubitMeasurementResult per measured qubit, in measurement order, named by its id
+                k.cond([x.qubit.id for x in mr.qubit_measurement_results] == [q_ids(ds[i])[0] for i in order[mr.key]], f'qubit ids of {mr.key}: {[x.qubit.id for x in mr.qubit_measurement_results]}')
+        for info in infos:
+            q_seq(k, info.qubits, [ds[i] for i in order[info.key]], f'find_measurements qubits of {info.key}')
+        out = RES.results_from_proto(msg, infos if with_infos else None)
+        if k.cond(len(out) == 1 and len(out[0]) == 1, 'one sweep, one result'):
+            got = out[0][0].records
+            if k.cond(sorted(got) == ['k', 'm'], f'record keys {sorted(got)}'):
+                for key in ('m', 'k'):
+                    k.cond(got[key].shape == records[key].shape and bool(np.all(np.asarray(got[key], dtype=int) == records[key])), f'records[{key}] {np.asarray(got[key]).tolist()}')
+        k.finish('result message qubit ids', wrong)
+
+    obs.append(
+        Obligation(
+            'msgs.qubit_id.results',
+            body_qid_results,
+            twin=lambda cx: body_qid_results(cx, wrong=True),
+            points=[{'row': r, 'col': c, 'choose:measurements_given': i % 2} for i, (r, c) in enumerate(((-1, -1), (0, 0), (-12, 1), (7, -11), (1 << 31, 2), (-100, 0), ((1 << 63) + 7, -1), (12, 10), (99, 1 << 40)))],
+            opts=dict(QID_OPTS, weight=3),
+            desc=f'api.v2.results find_measurements / results_to_proto / results_from_proto for two measurements over four grid qubits (row, col+1), (row-1, col), (row, col), (col-1, row+100) with SOLVER-chosen coordinates (row: -12..12 plus {FULL[1]}, col: -2..2 plus {SHORT[1]}), measured in a non-sorted order, with and without MeasureInfo: the message names the qubits by the documented ids in measurement order, and the records come back column by column (record BITS are concrete here, one distinct column per qubit; symbolic bits are the subject of the bit part of C16)',
+        )
+    )
+
+    # ---- device specifications ------------------------------------------------------------------------------------------------
+    # device.proto: valid_qubits "must be in the form '<int>_<int>'"; the unchanged tree refuses a minus sign there (finding
+    # below), so the healthy family has all coordinates >= 0 (0 is reached by the cell (row-1, col-1))
+    DEV_ROW = ((1, 13), [99, 100, 1000, 1 << 31, (1 << 63) + 7])  # 18 values
+    DEV_COL = ((1, 3), [10, 11, 1 << 40])  # 6 values
+
+    def device_spec_for(ids, pair_idx, attr_id):
+        spec = device_pb2.DeviceSpecification()
+        spec.valid_qubits.extend(ids)
+        ts = spec.valid_targets.add()
+        ts.name = '2_qubit_targets'
+        ts.target_ordering = device_pb2.TargetSet.SYMMETRIC
+        for i, j in pair_idx:
+            ts.targets.add().ids.extend([ids[i], ids[j]])
+        for gk in ('cz', 'phased_xz', 'meas'):
+            gs = spec.valid_gates.add()
+            getattr(gs, gk).SetInParent()
+            gs.gate_duration_picos = 1000
+        if attr_id is not None:
+            spec.qubit_attributes[attr_id].attributes['index'].int_value = 7
+        return spec
+
+    def device_names_qubits(k, dev, ds, pair_idx, attr_d):
+        qset_ = list(dev.metadata.qubit_set)
+        if k.cond(len(qset_) == len(ds), f'qubit_set {qset_}'):
+            for d in ds:
+                k.cond(OR([q_cond(g, d) for g in qset_]), f'{q_ids(d)[0]!r} missing in qubit_set {qset_}')
+        pairs_ = [tuple(p) for p in dev.metadata.qubit_pairs]
+        if k.cond(len(pairs_) == len(pair_idx) and all(len(p) == 2 for p in pairs_), f'qubit_pairs {pairs_}'):
+            for i, j in pair_idx:
+                k.cond(OR([OR([AND([q_cond(p[0], ds[i]), q_cond(p[1], ds[j])]), AND([q_cond(p[0], ds[j]), q_cond(p[1], ds[i])])]) for p in pairs_]), f'pair {q_ids(ds[i])[0]}-{q_ids(ds[j])[0]} missing in {pairs_}')
+        attrs = dict(dev.qubit_attributes)
+        k.cond(len(attrs) == 1 and all(dict(a_) == {'index': 7} for a_ in attrs.values()), f'qubit_attributes {attrs}')
+        for g in attrs:
+            k.cond(q_cond(g, attr_d), f'qubit_attributes key {g!r}')
+
+    def body_qid_device(cx, wrong=False):
+        r, c = coord(cx, 'row', DEV_ROW), coord(cx, 'col', DEV_COL)
+        cells = [(0, 0), (0, 1), (1, 0), (-1, -1)]
+        ds = [('grid', shifted(r, a_), shifted(c, b_)) for a_, b_ in cells]
+        pair_idx = [(0, 1), (2, 0)]
+        ids = [q_ids(d)[0] for d in ds]
+        spec = wire(cx, device_spec_for(ids, pair_idx, ids[3]))
+        dev = cg.GridDevice.from_proto(spec)
+        k = Cmp(cx, TOL)
+        device_names_qubits(k, dev, ds, pair_idx, ds[3])
+        # the device accepts operations on exactly the listed qubits / pairs (qubits built by the harness)
+        qv = [q_make(d) for d in ds]
+        outside = [cirq.GridQubit(-r[1], c[1]), cirq.GridQubit(c[1], r[1] + 3), cirq.GridQubit(r[1] + 2, c[1] + 2), cirq.GridQubit(r[1], -c[1])]
+        probes = [(cirq.X(qq), True) for qq in qv] + [(cirq.X(o), False) for o in outside if o not in qv]
+        probes += [(cirq.CZ(qv[0], qv[1]), True), (cirq.CZ(qv[0], qv[2]), True), (cirq.CZ(qv[1], qv[2]), False), (cirq.CZ(qv[0], qv[3]), False), (cirq.measure(qv[3], qv[1], key='m'), True)]
+        for op, want in probes:
+            ok = not raises_value_error(dev.validate_operation, op)
+            k.cond(ok == want, f'validate_operation({op!r}) {"accepts" if ok else "rejects"}')
+        # back to a specification: the documented '<int>_<int>' strings
+        spec2 = wire(cx, dev.to_proto())
+        k.cond(sorted(spec2.valid_qubits) == sorted(ids), f'to_proto valid_qubits {list(spec2.valid_qubits)} vs {sorted(ids)}')
+        got_pairs = {frozenset(t.ids) for tset in spec2.valid_targets if tset.target_ordering == device_pb2.TargetSet.SYMMETRIC for t in tset.targets if len(t.ids) == 2}
+        k.cond(got_pairs == {frozenset((ids[i], ids[j])) for i, j in pair_idx}, f'to_proto pairs {got_pairs}')
+        k.cond(sorted(spec2.qubit_attributes) == [ids[3]] and spec2.qubit_attributes[ids[3]].attributes['index'].int_value == 7, f'to_proto qubit_attributes {sorted(spec2.qubit_attributes)}')
+        # ids that are not of the form <int>_<int> are refused (documented ValueError of from_proto)
+        for bad_id in ('%d' % r[1], 'q' + ids[0], 'q_' + ids[0], ids[0] + '_' + ids[1], 'c_' + ids[0] + '_' + ids[1], ids[0] + '.5', ' ' + ids[0]):
+            bad = device_pb2.DeviceSpecification()
+            bad.valid_qubits.extend([ids[1], bad_id])
+            k.cond(raises_value_error(cg.GridDevice.from_proto, bad), f'from_proto accepts valid_qubits {list(bad.valid_qubits)}')
+        k.finish('device specification qubit ids', wrong)
+
+    obs.append(
+        Obligation(
+            'msgs.qubit_id.device',
+            body_qid_device,
+            twin=lambda cx: body_qid_device(cx, wrong=True),
+            points=[{'row': r, 'col': c} for r, c in ((1, 1), (2, 3), (9, 10), (10, 1), (13, 11), (99, 2), (100, 1 << 40), (1 << 31, 1), ((1 << 63) + 7, 3), (1000, 10))],
+            opts=dict(QID_OPTS, weight=4),
+            desc=f'GridDevice.from_proto / to_proto on a DeviceSpecification whose four valid qubits (row, col), (row, col+1), (row+1, col), (row-1, col-1) have SOLVER-chosen coordinates (row: 1..13 plus {DEV_ROW[1]}, col: 1..3 plus {DEV_COL[1]}, so that every coordinate is >= 0, 0 and digit-count changes included): qubit set, pair set and qubit attributes name exactly these qubits (coordinates compared with the symbolic terms), validate_operation accepts operations on the listed qubits / pairs and rejects qubits with negated / swapped coordinates, to_proto writes the documented <row>_<col> strings, and line / q-prefixed / named / three-field / coupler-shaped ids in valid_qubits are refused with ValueError',
+        )
+    )
+
+    def body_f_device_negative(cx, wrong=False):
+        which = cx.choose('negative', 3)
+        r = coord(cx, 'row', ((-3, -1), [-12, -100])) if which != 1 else coord(cx, 'row', ((0, 2), [10]))
+        c = coord(cx, 'col', ((-2, -1), [-11])) if which != 0 else coord(cx, 'col', ((0, 2), [10]))
+        ds = [('grid', r, c), ('grid', r, shifted(c, 1)), ('grid', shifted(r, 1), c)]
+        ids = [q_ids(d)[0] for d in ds]
+        pair_idx = [(0, 1), (2, 0)]
+        k = Cmp(cx, TOL)
+        for i in ids:
+            k.cond(q_cond(PRG.grid_qubit_from_proto_id(i), ds[ids.index(i)]), f'grid_qubit_from_proto_id({i!r})')
+        dev = cg.GridDevice.from_proto(wire(cx, device_spec_for(ids, pair_idx, ids[2])))
+        device_names_qubits(k, dev, ds, pair_idx, ds[2])
+        spec2 = wire(cx, dev.to_proto())
+        k.cond(sorted(spec2.valid_qubits) == sorted(ids), f'to_proto valid_qubits {list(spec2.valid_qubits)}')
+        k.finish('device specification with negative coordinates', wrong)
+
+    obs.append(
+        Obligation(
+            'msgs.finding.qubit_id.device_negative_coordinates',
+            body_f_device_negative,
+            twin=None,
+            opts=dict(QID_OPTS),
+            points=[],
+            desc="FINDING (loud): GridDevice.from_proto (and to_proto) refuse valid_qubits such as '-1_2' with ValueError although the id is of the documented form <int>_<int>, is what qubit_to_proto_id writes for cirq.GridQubit(-1, 2) and is parsed by grid_qubit_from_proto_id: _validate_device_specification matches ^[0-9]+_[0-9]+$ (no sign); no twin: every path of this obligation ends in that exception",
+        )
+    )
+
+    # ==================================================================================================
     # findings (defects of the unchanged tree; one obligation per finding, restricted to the failing family)
     # ==================================================================================================
+    def body_f_qubit_name(cx, wrong=False):
+        r, c = coord(cx, 'r', ((-3, -3), [])), coord(cx, 'c', ((2, 2), []))  # one value each: every failing NAME is reported once
+        names = [
+            '%d_%d' % (r[1], c[1]),  # looks like a grid id
+            '%d' % r[1],  # looks like a line id
+            'q%d_%d' % (r[1], c[1]),  # grid id with the optional q
+            'c_%d_%d_3_4' % (r[1], c[1]),  # looks like a coupler of grid qubits
+            'c_%d_%d' % (r[1], c[1]),  # looks like a coupler of line qubits
+            'c_a_b',  # looks like a coupler of named qubits
+            ' %d' % r[1],  # int() tolerates surrounding white space
+            '+%d' % abs(r[1]),  # ... and a plus sign
+        ]
+        d = ('named', names[cx.choose('name', len(names))])
+        q = q_make(d)
+        k = Cmp(cx, TOL)
+        back = PRG.qubit_from_proto_id(PRG.qubit_to_proto_id(q))
+        k.cond(q_cond(back, d), f'{q!r} comes back as {back!r}')
+        c_ = cirq.Circuit(cirq.X(q), cirq.measure(q, key='m'))
+        k.circuit(roundtrip(cx, c_), c_, 'named qubit')
+        k.finish('named qubit whose name looks like an id', wrong)
+
+    obs.append(
+        Obligation(
+            'msgs.finding.qubit_id.named_looks_like_id',
+            body_f_qubit_name,
+            twin=lambda cx: body_f_qubit_name(cx, wrong=True),
+            opts=dict(QID_OPTS, stop_on_violation=False),  # report every failing selector value
+            points=[],
+            desc="FINDING: a cirq.NamedQubit whose name has the form of a grid / line / coupler id ('1_2', '-3', 'q1_2', 'c_1_2_3_4', 'c_1_2', 'c_a_b', ' 3', '+3') is serialized under that name and comes back as GridQubit / LineQubit / Coupler: the program silently acts on different qubits (the id format does not record the qubit kind)",
+        )
+    )
+
+    def body_f_coupler_mixed(cx, wrong=False):
+        r, c = coord(cx, 'r', ((-3, -3), [])), coord(cx, 'c', ((2, 2), []))  # one value each: every failing NAME is reported once
+        d = [
+            ('coupler', ('grid', r, c), ('line', r)),  # c_<r>_<c>_<r>: four fields
+            ('coupler', ('named', 'a_b'), ('named', 'z')),  # c_a_b_z: the inner underscore is not escaped
+            ('coupler', ('grid', r, c), ('named', 'z')),
+            ('coupler', ('named', 'a_b'), ('named', 'c_d')),  # five fields, not integers
+        ][cx.choose('pair', 4)]
+        q = q_make(d)
+        k = Cmp(cx, TOL)
+        back = PRG.qubit_from_proto_id(PRG.qubit_to_proto_id(q))
+        k.cond(q_cond(back, d), f'{q!r} comes back as {back!r}')
+        k.finish('coupler of qubits of different kinds / named qubits with underscores', wrong)
+
+    obs.append(
+        Obligation(
+            'msgs.finding.qubit_id.coupler_not_parsed',
+            body_f_coupler_mixed,
+            twin=lambda cx: body_f_coupler_mixed(cx, wrong=True),
+            opts=dict(QID_OPTS, stop_on_violation=False),
+            points=[],
+            desc="FINDING: qubit_to_proto_id accepts every Coupler, but the id c_<id0>_<id1> is only parsed back for two grid, two line or two underscore-free named qubits: Coupler(GridQubit(1, 2), LineQubit(1)) -> 'c_1_2_1' and Coupler(NamedQubit('a_b'), NamedQubit('z')) -> 'c_a_b_z' come back as NamedQubits of that name",
+        )
+    )
+
     def body_f_cop_tags(cx, wrong=False):
         q0, q1, _ = qubits_of('grid', 3)
         x = cx.real('x', -BOX, BOX)
@@ -1658,7 +2139,9 @@ LEVEL = (
     'contexts), CircuitSerializer with op / tag (de)serializers and GridDevice.from_proto / to_proto / validate_operation run on them unmodified. Every round trip is compared with the ORIGINAL object field by field '
     '(structure by one Boolean VC, numbers by |got - expected| <= single-precision margin, formulas by evaluating both trees at symbolic symbol values); z3 decides '
     'for ALL values of the symbolic exponents / angles / probabilities / durations / sweep values / indices / repetition counts / bit masks in their boxes, '
-    'including the coincidences (x1 = x2, also modulo the gate period) on which the constant table merges operations. Shapes (gate family, tag set, sweep nesting, '
+    'including the coincidences (x1 = x2, also modulo the gate period) on which the constant table merges operations. Qubit identifiers (api.v2.program) and their uses by the '
+    'circuit / result / device (de)serializers: coordinates are solver integers over negative, zero, multi-digit and a few large values, enumerated by the explorer where the id string is built '
+    '(solver-driven bounded exploration). Shapes (gate family, tag set, sweep nesting, '
     'circuit layout) come from finite menus (solver-driven bounded exploration; obligations without a symbolic quantity are labelled as such).'
 )
 
@@ -1672,6 +2155,7 @@ ASSUMPTIONS = [
     'sympy formulas and Boolean conditions cannot hold solver values: their shape comes from menus, their constants are concrete; equality of the returned formula is decided at SYMBOLIC values of its symbols',
     'tunits.Value is a C extension: in the sweep obligations with units its values are MODELLED in symbolic mode (symx/tunits_model.py: symbolic magnitude x real tunits unit; conversion factors, unit messages and dimension checks are computed by the real tunits on the concrete unit) and real in concrete mode; the expected points use SI prefix factors written in the harness; AnalogDetune* gates, WaitGateWithUnit and value_with_unit arguments are outside',
     'device specifications: the oracle for validate_operation is the specification itself (gate kind listed, qubits listed, pair listed for two-qubit non-measurement gates), with one to three representative operations per GateSpecification kind taken from the GridDevice / device.proto documentation',
+    'qubit identifiers (msgs.qubit_id.*): an id is a Python str, which cannot hold a solver term; each coordinate is a solver integer constrained to the stated value set and is concretised by the explorer at the point where the qubit is built (every feasible value is explored as its own path); the qubit that comes back is compared, class and attribute-wise, with the SYMBOLIC term under the path condition; the expected id strings are written by the harness from the docstring of qubit_to_proto_id with %-formatting; qubits are described by harness tuples, cirq equality of qubits is used only in addition',
     'z3 is trusted; cvc5 cross-check sampling as configured by the framework',
 ]
 
@@ -1686,7 +2170,8 @@ BOUNDS = {
         'sweepables': 'None, sweep, list of sweeps, dict, ParamResolver, list of dicts, empty resolver; one or per-sweep repetitions; use_float64 on/off',
         'gates with symbolic parameters': 'X/Y/Z/H/CZ Pow (global shift 0 / -0.5), ISwapPow, PhasedXPow, PhasedXZ (two of three exponents symbolic), FSim, WaitGate (1-2 qubits), DepolarizingChannel (1-2 qubits), RandomGateChannel(X/Z Pow), CouplerPulse (two of six fields symbolic), InternalGate',
         'parameter-free gates': 'I, 2-qubit identity, ResetChannel, SYC, WILLOW, MultilevelResetViaResonator, LZSResetViaResonator, LeakageISWAP, three single-qubit Cliffords, measurements with invert masks, X, CZ, FSim with FSimViaModelTag / TwoPulseFSimTag',
-        'qubits': 'GridQubit, LineQubit, NamedQubit (3 each)',
+        'qubits': 'GridQubit, LineQubit, NamedQubit (3 each) in the gate / tag / control obligations; msgs.qubit_id.*: see "qubit identifiers"',
+        'qubit identifiers': 'kinds grid, line, named, coupler of two grid / two line / two named qubits, qudits (refused); 17 name templates next to the id forms (q_<r>_<c>, <r>_<c>_<r>, <r>_, _<r>, q<r>, <r>x, c<r>_<c>, c_<r>_<c>_<r>, <r>.0, empty name, ...); uses: X / wait / measure operations with permuted qubit order, the deprecated Operation.qubits id list, CircuitOperation with a full / partial qubit_map, mixed kinds in one circuit, result messages (find_measurements / results_to_proto / results_from_proto, concrete bits), DeviceSpecification with four qubits, two pairs and one qubit attribute',
         'tags': '13 tag configurations on operations, moments, circuits',
         'classical controls': '10 configurations, 1-3 conditions',
         'CircuitOperation': '11 forms incl. nesting and a shared sub-circuit constant',
@@ -1695,16 +2180,18 @@ BOUNDS = {
         'sweeps with units': 'Linspace / Points / const, unit pairs (ns,us) (GHz,MHz) (mV,V) (us,us)',
         'device specifications': '3 qubit / pair layouts, 6 gate lists over syc, sqrt_iswap, cz, phased_xz, virtual_zpow, physical_zpow, meas, wait; probes on listed / reversed / unlisted pairs and an outside qubit',
     },
-    'circuit size': '1-6 operations, 1-6 moments, 1-3 qubits',
+    'qubit coordinates': 'solver-chosen integers, concretised where the id string is built (one path per value): -12..12 plus -2**31-1, -100, 99, 1000, 2**31, 2**63+7 (31 values) for the first coordinate, -2..2 plus -11, 10, 2**40 (8 values) or -1..1 plus -11, 10 (5 values) for the second; derived neighbours (+-1, +100, -13, +25, swapped roles); device specifications: all coordinates >= 0 (row 1..13 plus 99, 100, 1000, 2**31, 2**63+7; col 1..3 plus 10, 11, 2**40; cell (row-1, col-1) reaches 0)',
+    'circuit size': '1-6 operations, 1-6 moments, 1-4 qubits',
     'outside': [
         'the upb / C++ protobuf backends and the wire encoding of symbolic values (concrete points and replays go through the pure-Python wire encoding only)',
         'non-zero real arguments of magnitude below 2**-126 or beyond the float32 range; rounding of IEEE doubles (exact real model)',
         'tunits-valued gate arguments: AnalogDetuneQubit, AnalogDetuneCouplerOnly, WaitGateWithUnit, value_with_unit arguments (sweeps with units are covered through the harness model of tunits.Value)',
         'ndarray / bytes / complex arguments (api.v2.ndarrays numeric arrays), CustomArg function_interpolation_data of InternalGate, stimcirq operations, custom op / tag (de)serializers passed to CircuitSerializer',
         'SingleQubitCliffordGate / CliffordTableau with symbolic tableau bits (three concrete gates only); MeasurementGate on qudits',
-        'deprecated message forms read by the deserializer only (Operation.qubits, token_value / token_constant_index, Operation.tags, Circuit.moments, Moment.operations): never produced by the serializer, not generated here',
+        'deprecated message forms read by the deserializer only (Operation.qubits other than in msgs.qubit_id.circuit, token_value / token_constant_index, Operation.tags, Circuit.moments, Moment.operations): never produced by the serializer, not generated here',
         'device specifications beyond the stated menus (3 layouts up to 4 qubits, 6 gate lists over 8 GateSpecification kinds): deprecated valid_gate_sets, couplers, cz_pow_gate / fsim_via_model / internal_gate / analog gate kinds, compilation target gatesets, _from_device_information; result messages beyond bit packing (see the bit-packing obligations of C16)',
         'FiniteRandomVariable distributions with symbolic weights; the sampled values themselves (function of the compared fields)',
+        'qubit identifiers: NamedQubits whose name has the form of a grid / line / coupler id and couplers of qubits of different kinds or of named qubits with underscores (findings msgs.finding.qubit_id.*: the format cannot represent them), negative coordinates in device specifications (finding), names outside the 17 templates (other scripts, control characters), coordinates outside the enumerated values, np.integer coordinates, symbolic record bits together with symbolic qubit ids',
         'circuits larger than the stated menus; Python-level identity / caching effects; tags or gate arguments that are unhashable (lists inside InternalGate / InternalTag in a circuit: rejected by Python hashing before serialization)',
     ],
 }
